@@ -293,13 +293,24 @@ class Material(MutableMapping[str, str]):
                 value = f'"{value}"'
             f.write(f'\t{name} {value}\n')
         for block in self.blocks:
-            block.serialise(f, start_indent='\t')
+            self._export_block(f, block, '\t')
         if self.proxies:
             f.write('\n\tProxies\n\t\t{\n')
             for block in self.proxies:
-                block.serialise(f, start_indent='\t\t')
+                self._export_block(f, block, '\t\t')
             f.write('\t\t}\n')
         f.write('\t}\n')
+
+    @staticmethod
+    def _export_block(f: TextIO, block: Keyvalues, indent: str) -> None:
+        """Write a sub-block. Unlike Keyvalues.serialise() nothing is escaped, since parse() does not decode escapes."""
+        if block.has_children():
+            f.write(f'{indent}"{block.real_name}"\n{indent}\t{{\n')
+            for child in block:
+                Material._export_block(f, child, indent + '\t')
+            f.write(f'{indent}\t}}\n')
+        else:
+            f.write(f'{indent}"{block.real_name}" "{block.value}"\n')
 
     def apply_patches(
         self,
